@@ -304,7 +304,7 @@ func authWorld(driver string, idx int) (*ledgerWorld, error) {
 
 func TestC04(t *testing.T) {
 	ev := vlib.NewEvidence("C04", "exploration",
-		"for each of the 7 signed endpoints x identity style (node id / wallet address): a reference-signed fresh request must pass verification (and request.Sign must produce the same signature), then every single-component alteration (signature made for another method, other identity, other key, nonce+-1, each JSON leaf / struct field of the params, one bit in each of the 64 R||S bytes, malformed/empty/short/garbage/oversize signatures, swapped encoding) must be refused with a verification error and leave the pool digest unchanged, in process and again over a persistent connection on which another identity has just authenticated; non-trivial = altered request differs from an accepted one in exactly one component; distinct = (endpoint, style, alteration)")
+		"for each of the 7 signed endpoints x identity style (node id / wallet address): a reference-signed fresh request must pass verification (and request.Sign must produce the same signature), then every single-component alteration (signature made for another method, other identity, other key, nonce+-1, each JSON leaf / struct field of the params, one bit in each of the 64 R||S bytes, malformed/empty/short/garbage/oversize signatures, swapped encoding) must be refused with a verification error and leave the pool digest unchanged, in process and again over a persistent connection on which another identity has just authenticated; non-trivial = altered request differs from an accepted one in exactly one component; distinct = (endpoint, style, alteration); (faults) forged and valid requests whose caller is gone; 16x12 valid requests of one identity verified at once")
 	ev.Assume("the V byte of a node-style signature and 27/28 vs 0/1 are not covered by the signature scheme: only required not to crash")
 	ev.Assume("the legacy vipnode_update form (signature over {peers, block_number}) is accepted by design; its unsigned peers_info is a documented compatibility hole and is not asserted")
 	rounds := vlib.Scale(2, 12)
